@@ -2106,7 +2106,8 @@ class Node(SimComponent, ABC):
 
         to the red agent.
         """
-        self.node_scan_countdown = self.config.node_scan_duration
+        # the countdown in apply_timestep fires when it reaches 0 from above: a duration of 0 completes in this tick
+        self.node_scan_countdown = max(self.config.node_scan_duration, 1)
         return True
 
     def reveal_to_red(self) -> bool:
